@@ -30,6 +30,7 @@ func runC02(p *load.Program, r *oblig.Report) {
 	c02Batch(p, r)
 	c02MessageReader(p, r)
 	c02Reader(p, r)
+	c02LastOffsetSentinel(p, r)
 }
 
 func calleeName(ins ssa.Instruction) string {
@@ -489,6 +490,32 @@ func c02MessageReader(p *load.Program, r *oblig.Report) {
 		r.Lost(rule, "kafka.(*messageSetReader).readMessageV1/V2")
 		return
 	}
+	// the headers handed out with a message are that message's own storage: freshly made for each record, never
+	// scratch space of the reader that the next record overwrites
+	var shared []string
+	nHdr := 0
+	an.EachInstr(v2, func(ins ssa.Instruction) {
+		ret, ok := ins.(*ssa.Return)
+		if !ok || ret.Parent() != v2 || len(ret.Results) != 5 {
+			return
+		}
+		var roots []ssa.Value
+		appendRoots(an.RetVal(ret, 3), map[ssa.Value]bool{}, &roots)
+		for _, rt := range roots {
+			nHdr++
+			switch x := an.Unwrap(rt).(type) {
+			case *ssa.MakeSlice:
+				continue
+			case *ssa.Const:
+				if x.Value == nil {
+					continue
+				}
+			}
+			shared = append(shared, clean(an.Shape(rt)))
+		}
+	})
+	r.Check(nHdr > 0 && len(shared) == 0, rule, "kafka.(*messageSetReader).readMessageV2 returns headers in storage made for that record", p.Pos(v2.Pos()),
+		"headers = make([]Header, headerCount) (or nil)", strings.Join(shared, "; "))
 	n := 0
 	an.EachInstr(v2, func(ins ssa.Instruction) {
 		s, ok := fieldStoreIs(ins, "messageSetReader", "lengthRemain")
@@ -815,4 +842,86 @@ func c02NullLengths(p *load.Program, r *oblig.Report) {
 		})
 	}
 	r.RequireCount(rule, n, 8)
+}
+
+// c02LastOffsetSentinel: Batch.readMessage jumps past "the last offset of the batch" at a clean end of the response
+// (offsets removed by compaction are never read). The last offset is only known once a record of this response was
+// read; until then the field must hold the value the jump's guard excludes, otherwise a response that carries no
+// record at all (a retained empty batch alone) makes the position jump to <zero value>+1, i.e. backwards.
+func c02LastOffsetSentinel(p *load.Program, r *oblig.Report) {
+	const rule = "C02.R9 the compaction jump only uses a last offset supplied by this response"
+	rm := p.Func("", "(*Batch).readMessage")
+	if rm == nil {
+		r.Lost(rule, "kafka.(*Batch).readMessage")
+		return
+	}
+	// (a) the jump and the sentinel its guard excludes
+	var sentinel int64
+	found, guard := false, ""
+	an.EachInstr(rm, func(ins ssa.Instruction) {
+		st, ok := fieldStoreIs(ins, "Batch", "offset")
+		if !ok || !strings.Contains(clean(an.Shape(st.Val)), ".lastOffset") {
+			return
+		}
+		for d, child := st.Block().Idom(), st.Block(); d != nil; d, child = d.Idom(), d {
+			_, ci := an.IfCond(d)
+			e := ci.Edge(token.NEQ)
+			if e < 0 || !edgeControls(d, e, child) {
+				continue
+			}
+			if k, isK := an.ConstInt(ci.Y); isK && strings.HasSuffix(clean(an.Shape(ci.X)), ".lastOffset") {
+				sentinel, found = k, true
+				guard = fmt.Sprintf("batch.lastOffset != %d", k)
+			}
+		}
+	})
+	r.Check(found, rule, "kafka.(*Batch).readMessage jumps past lastOffset only when lastOffset is not the no-value sentinel", p.Pos(rm.Pos()),
+		"if … && batch.lastOffset != -1 { batch.offset = batch.lastOffset + 1 }", "guard "+guard)
+	if !found {
+		return
+	}
+	// (b) every Batch that is given a message set reader starts with the sentinel
+	n := 0
+	var bad []string
+	for _, fn := range p.ModuleFunctions() {
+		if fn.Pkg != p.SSAPkg("") {
+			continue
+		}
+		an.EachInstr(fn, func(ins ssa.Instruction) {
+			al, ok := ins.(*ssa.Alloc)
+			if !ok || !an.NamedIs(al.Type(), load.ModPath, "Batch") {
+				return
+			}
+			hasMsgs, okInit := false, false
+			for _, ref := range *al.Referrers() {
+				fa, ok := ref.(*ssa.FieldAddr)
+				if !ok {
+					continue
+				}
+				for _, u := range *fa.Referrers() {
+					st, ok := u.(*ssa.Store)
+					if !ok || st.Addr != fa {
+						continue
+					}
+					switch an.FieldName(fa.X.Type(), fa.Field) {
+					case "msgs":
+						hasMsgs = !an.IsNilConst(st.Val)
+					case "lastOffset":
+						if k, isK := an.ConstInt(st.Val); isK && k == sentinel {
+							okInit = true
+						}
+					}
+				}
+			}
+			if !hasMsgs {
+				return
+			}
+			n++
+			if !okInit {
+				bad = append(bad, "Batch built at "+p.Pos(al.Pos())+" in "+an.ShortFunc(fn)+" leaves lastOffset at its zero value")
+			}
+		})
+	}
+	r.Check(n > 0 && len(bad) == 0, rule, "every Batch that reads a message set starts with lastOffset at the sentinel", "-",
+		fmt.Sprintf("Batch{msgs: …, lastOffset: %d}", sentinel), strings.Join(bad, "; "))
 }
